@@ -84,7 +84,8 @@ def data_main(spec):
             continue
         diffs = D.subset_diff(f.expect(v), r["results"][i]) if r["results"][i] is not None else [("unfinished", "")]
         # and once more afterwards, single-threaded, with a fresh response of the same size: lasting damage shows here
-        v2 = f.gen(random.Random("cold-after:%s" % p), ("count", len(v.get("_luns", [])) or 3))
+        longest = max(int((q.split(":") + ["3"])[2]) for q in spec["progs"])
+        v2 = f.gen(random.Random("cold-after:%s" % p), ("count", longest + 40, 0) if f.name == "reporttargetportgroups" else ("count", longest + 40))
         try:
             later = D.subset_diff(f.expect(v2), f.lib_decode(f.encode(v2), v2))
         except Exception as e:  # noqa: BLE001
